@@ -16,6 +16,8 @@ lists gofacts regenerates from formatter.go on every run (Gen/FmtCode.lean):
     or comment at all (but the halt-compiler tail and what stands before the sign of `"$a[-1]"`);
   * `formatted_text_depends_on_structure_only` — two trees with the same skeleton print, after
     formatting, to the same bytes (printer model of C15);
+  * `formatted_tokens_carry_no_source_trivia` — in the formatted tree every token of a written field carries
+    only free-floating entries of the formatter's own making (or the halt-compiler tail), for every tree;
   * `format_keeps_nodes` — for every schema-well-formed tree without inline HTML the formatted tree has
     the kinds, byte values and children of the tree: the formatter touches tokens only (with inline HTML
     formatStmts inserts `StmtNop{"?>"}` nodes: a recorded finding).
@@ -149,6 +151,51 @@ theorem acc_single : AccSingle realCfg schemaOf := by
 theorem format_keeps_nodes (t : Tree) (hw : t.WF schemaOf) (hno : noKind realCfg.htmlKind t = true)
     (s : FSt) (t' : Tree) (s' : FSt) (h : fmtTree realCfg t s = some (t', s')) : shape t' = shape t :=
   fmtTree_shape realCfg schemaOf acc_single t hw hno s t' s' h
+
+/-! ### what the formatter writes carries no source trivia -/
+
+theorem ws_ids : Gen.fmtProgs.all (wsOKIs realCfg tHalt) = true := by decide +kernel
+
+theorem ws_ok (k : Nat) : wsOKIs realCfg tHalt (realCfg.prog k) = true := by
+  show wsOKIs realCfg tHalt ((Gen.fmtProgs[k]?).getD []) = true
+  cases hk : Gen.fmtProgs[k]? with
+  | none => simp [wsOKIs]
+  | some p => exact List.all_eq_true.mp ws_ids p (List.mem_of_getElem? hk)
+
+theorem nop_own : OwnTree realCfg tHalt dTok dKid (nopNode realCfg) := by
+  have hn : realCfg.nopFields = 2 := by decide
+  have hs : realCfg.nopSemi = 1 := by decide
+  simp only [nopNode, hn, hs, OwnTree]
+  refine ⟨?_, ?_⟩
+  · intro f _ t ht
+    have : t.ff = [] := by
+      match f, ht with
+      | 0, ht => simp [fieldAt, List.range, List.range.loop] at ht
+      | 1, ht => simp [fieldAt, List.range, List.range.loop] at ht; rw [ht]
+      | n + 2, ht => simp [fieldAt, List.range, List.range.loop] at ht
+    intro x hx
+    rw [this] at hx
+    simp at hx
+  · simp [ownSlots, ownForest, List.replicate]
+
+/-- NO SOURCE TRIVIA (every tree; every state whose pending list is the formatter's own): in the formatted
+    tree every token of every field its kind's method writes — all token fields but the 19 of
+    `fmt_covers_tokens` — carries only free-floating entries the formatter made (T_WHITESPACE, the
+    `<?php ` open tag) or kept on purpose (the halt-compiler tail): no comment, no source blank. -/
+theorem formatted_tokens_carry_no_source_trivia (t : Tree) (s : FSt) (hs : StOwn realCfg tHalt s) (t' : Tree) (s' : FSt)
+    (h : fmtTree realCfg t s = some (t', s')) : OwnTree realCfg tHalt dTok dKid t' ∧ StOwn realCfg tHalt s' := by
+  have := fmtTree_own realCfg tHalt dTok dKid (fun _ _ h => h) (fun _ _ h => h) ws_ok nop_own t s t' s' hs h
+  exact ⟨this.2, this.1⟩
+
+theorem format_carries_no_source_trivia (t t' : Tree) (h : format realCfg t = some t') : OwnTree realCfg tHalt dTok dKid t' := by
+  unfold format at h
+  cases hx : fmtTree realCfg t {} with
+  | none => simp [hx] at h
+  | some r =>
+    obtain ⟨t1, s1⟩ := r
+    simp [hx] at h
+    subst h
+    exact (formatted_tokens_carry_no_source_trivia t {} (by intro x hx; simp at hx) t1 s1 hx).1
 
 /-- the analysis is not vacuous: a method that rewrites a token only under a condition on another field is
     reported -/
